@@ -531,7 +531,7 @@ fn prop(c: &Case, ctx: &Ctx) -> PResult {
 pub fn property() -> Property {
     Property {
         id: "C01",
-        rule: "A case is (installation layout, query history). Layout: platform in 5; base + a shuffled subset of ex1..ex9; 1..6 chunks keyed (repository, category in 15, chunk 0..9), each with index, index2 or both (a quarter of the files of a both-kinds chunk are listed in only one of the two), sorted or unsorted tables, 6 % of the entries with the synonym flag (only `exists` is asserted for those), 1..40 stored paths category/[exN/]dirs/name.ext at 128-aligned offsets in dat0..dat7 (some beyond 4 GiB in sparse files), some base files under the folder of an uninstalled expansion (documented fall-back); every stored file's content embeds (repo, category, chunk, dat, offset, path). History: 1..40 exists/find_offset/extract calls on one handle over stored paths, case-flipped stored paths (category and repository tokens included), absent names, absent folders, other category, other repository, unknown category; then the same queries reversed on a fresh handle. Oracle: stateless model (own JAMCRC): lower-case, category = first component, repository = second component if installed else base, present iff an index/index2 of that (repository, category) holds the hash. Plus a covering sweep over (category, expansion, chunk, platform). evaluations counts individual queries. Non-trivial: a history with at least one positive answer needing an expansion, index2-only chunk, chunk > 0 or dat > 0 AND at least one negative answer; distinct by hash of the case.",
+        rule: "[rounds 8-9: one path tail in 25 of 100..600 characters; file / folder names from small pools so that folders of a chunk share file names; query kind 'stored path with one of its last 40 characters changed'] A case is (installation layout, query history). Layout: platform in 5; base + a shuffled subset of ex1..ex9; 1..6 chunks keyed (repository, category in 15, chunk 0..9), each with index, index2 or both (a quarter of the files of a both-kinds chunk are listed in only one of the two), sorted or unsorted tables, 6 % of the entries with the synonym flag (only `exists` is asserted for those), 1..40 stored paths category/[exN/]dirs/name.ext at 128-aligned offsets in dat0..dat7 (some beyond 4 GiB in sparse files), some base files under the folder of an uninstalled expansion (documented fall-back); every stored file's content embeds (repo, category, chunk, dat, offset, path). History: 1..40 exists/find_offset/extract calls on one handle over stored paths, case-flipped stored paths (category and repository tokens included), absent names, absent folders, other category, other repository, unknown category; then the same queries reversed on a fresh handle. Oracle: stateless model (own JAMCRC): lower-case, category = first component, repository = second component if installed else base, present iff an index/index2 of that (repository, category) holds the hash. Plus a covering sweep over (category, expansion, chunk, platform). evaluations counts individual queries. Non-trivial: a history with at least one positive answer needing an expansion, index2-only chunk, chunk > 0 or dat > 0 AND at least one negative answer; distinct by hash of the case.",
         assumptions: &["a path is stored in exactly one chunk, and when both index kinds list it they designate the same location; depth-2 paths whose file name is a repository name are not generated (answer would depend on search order)", "for an entry with the synonym flag only existence is asserted, not the location (the format keeps a separate synonym table the statement does not describe)", "CRC-32 collisions between generated paths are ignored (probability ~ 2^-32 per pair)"],
         pre: None,
         post: None,
